@@ -175,7 +175,7 @@ Definition judge_case (t : tok) : Z :=
     (* type questions on a validated program *)
     let root := frugal_of_tok (nth_tok 1 f) in
     let qs := as_list (nth_tok 2 f) in
-    verdict (validated_b 64 root && forallb (query_ok root) qs)
+    verdict (validated_b 64 root && names_ok_b 64 root && forallb (query_ok root) qs)
             (5000 + Z.min (Z.of_nat (length (filter (query_follows root) qs))) 999)
   else -1.
 
